@@ -48,7 +48,7 @@ MOS = [
        allof(held(H + "create_snapshot", SNAP_WRITE, SEQ_LOAD, weaker=SNAP_SHARED), held(H + "create_snapshot", SNAP_WRITE, DOCSTORE_READ, weaker=SNAP_SHARED), held(H + "create_snapshot", SNAP_WRITE, COLLECT, weaker=SNAP_SHARED),
              held(H + "create_snapshot", MANIFEST_LOCK, MAN_LOAD), held(H + "create_snapshot", MANIFEST_LOCK, MAN_SAVE), held(H + "create_snapshot", MANIFEST_LOCK, COMPACT_WAL),
              precedes(H + "create_snapshot", SEQ_LOAD, DOCSTORE_READ),
-             never(H + "create_snapshot", MAN_SAVE, assume=[Arm(r"^Gt\(call Option::<u64>::unwrap_or, call core::num::<impl u64>::saturating_sub\)$", {"otherwise"}, name="latest_snapshot_seq > last_wal_seq")])),
+             never(H + "create_snapshot", MAN_SAVE, assume=[Arm(r"^(Gt|Ge)\(call Option::<u64>::unwrap_or, call core::num::<impl u64>::saturating_sub\)$", {"otherwise"}, name="latest_snapshot_seq > last_wal_seq")])),
        functions=[("hnsw_backend.rs", "create_snapshot")]),
     MO("O9.3/rotate", "rotate_wal_if_needed: MANIFEST load and save under the manifest lock",
        allof(held("hnsw_backend::PersistenceState::rotate_wal_if_needed", MANIFEST_LOCK, MAN_LOAD), held("hnsw_backend::PersistenceState::rotate_wal_if_needed", MANIFEST_LOCK, MAN_SAVE)),
